@@ -1,7 +1,7 @@
 use crate::{
     cfg::RegisterSet,
     parser::{
-        CsrIType, CsrType, HasRegisterSets, IArithType, InstructionProperties, ParserNode,
+        CsrIType, CsrType, HasRegisterSets, IArithType, Inst, InstructionProperties, ParserNode,
         Register, RegisterProperties,
     },
 };
@@ -112,7 +112,11 @@ impl HasGenValueInfo for ParserNode {
             }
             ParserNode::Arith(expr) => {
                 if expr.rs1 == Register::X0 && expr.rs2 == Register::X0 {
-                    Some((expr.rd.get(), AvailableValue::Constant(0)))
+                    // Every operator yields 0 on (0, 0), except division (-1)
+                    let value = Inst::from(expr.inst.get())
+                        .math_op()
+                        .map_or(0, |op| op.operate(0, 0));
+                    Some((expr.rd.get(), AvailableValue::Constant(value)))
                 } else {
                     None
                 }
